@@ -123,7 +123,19 @@ struct FileCase {
     rs: u64,
 }
 
+/// two dumps of (usually) different pointer widths, processed once each, then PRINTED alternately:
+/// on fresh threads (base), one after the other on ONE thread, and as tasks of the multi-thread runtime
+#[derive(Clone, Debug)]
+struct MixCase {
+    a: String,
+    b: String,
+    /// the prints, in order: digit = 4 * (0: state a, 1: state b) + printer (0 json, 1 pretty json, 2 text, 3 brief)
+    seq: Vec<u8>,
+    rs: u64,
+}
+
 enum Case {
+    Mix(MixCase),
     Run(RunCase),
     Cfi(CfiCase),
     File(FileCase),
@@ -219,6 +231,20 @@ fn parse_case(case: &str) -> Option<Case> {
                 rs,
                 evil,
             }))
+        }
+        "mix" => {
+            if f.len() != 6 {
+                return None;
+            }
+            let a = field(f[2], "a:")?.to_string();
+            let b = field(f[3], "b:")?.to_string();
+            cpu_spec(&a)?;
+            cpu_spec(&b)?;
+            let seq: Vec<u8> = field(f[4], "seq:")?.chars().map(|c| c.to_digit(8).map(|d| d as u8)).collect::<Option<_>>()?;
+            if seq.is_empty() || seq.len() > 64 {
+                return None;
+            }
+            Some(Case::Mix(MixCase { a, b, seq, rs: field(f[5], "rs:")?.parse().ok()? }))
         }
         "file" => {
             if f.len() != 8 {
@@ -328,6 +354,10 @@ fn render_run(c: &RunCase) -> String {
         c.evil,
         c.cpu
     )
+}
+
+fn render_mix(c: &MixCase) -> String {
+    format!("det mix a:{} b:{} seq:{} rs:{}", c.a, c.b, c.seq.iter().map(|d| d.to_string()).collect::<String>(), c.rs)
 }
 
 const FILE_DUMPS: &[&str] = &["test.dmp", "linux-mini.dmp", "simple-crashpad.dmp", "pipeline-inlines-macos-segv.dmp", "invalid-parameter.dmp"];
@@ -783,11 +813,45 @@ fn build_dump(c: &RunCase) -> Vec<u8> {
         .set_linux_proc_status(b"Name:\tverif\nPid:\t4242\n")
         .set_linux_lsb_release(b"DISTRIB_ID=Verif\nDISTRIB_RELEASE=1.0\nDISTRIB_CODENAME=det\nDISTRIB_DESCRIPTION=\"Verif 1.0\"\n")
         .set_linux_cpu_info(b"processor\t: 0\nmicrocode\t: 0x1e\n");
-    if amd64 || c.cpu == "x86" {
-        // code at the first thread's instruction pointer: `mov rax, [rbx]` / `dec eax; mov eax, [ebx]`
-        // then nops (crash analysis disassembles it), and the process memory map
-        let code = Section::with_endian(LE).append_bytes(&[0x48, 0x8b, 0x03]).append_repeated(0x90, 29);
-        dump = dump.add_memory(synth::Memory::with_section(code, mod_base(c.thr[0][0]) + frame_off(0)));
+    // Crashpad annotations (global, per module: list / simple / typed objects; the keys deliberately
+    // not in name order) — shown by the raw stream dump
+    {
+        let mut cp = synth::CrashpadInfo::new(LE)
+            .add_simple_annotation("zeta", "last")
+            .add_simple_annotation("channel", "verif")
+            .add_simple_annotation("alpha", "first")
+            .add_simple_annotation("ptype", "det");
+        for i in 0..c.mods.len().min(3) {
+            cp = cp.add_module(
+                synth::ModuleCrashpadInfo::new(i as u32, LE)
+                    .add_list_annotation("list-b")
+                    .add_list_annotation("list-a")
+                    .add_simple_annotation("mod-z", "1")
+                    .add_simple_annotation("mod-a", "2")
+                    .add_annotation_object("obj-y", synth::AnnotationValue::String("why".into()))
+                    .add_annotation_object("obj-b", synth::AnnotationValue::Custom(0x8001, vec![1, 2, 3, i as u8]))
+                    .add_annotation_object("obj-k", synth::AnnotationValue::Invalid),
+            );
+        }
+        dump = dump.add_crashpad_info(cp);
+    }
+    if c.lim_seed % 3 == 0 {
+        // a MemoryInfoList as well (regions of the modules and stacks)
+        for (i, _) in c.mods.iter().enumerate() {
+            dump = dump.add_memory_info(synth::MemoryInfo::new(LE, mod_base(i), mod_base(i), 0x20, MOD_SIZE as u64, 0x1000, 0x20, 0x100_0000));
+        }
+        for t in 0..c.thr.len() {
+            dump = dump.add_memory_info(synth::MemoryInfo::new(LE, stack_base(t), stack_base(t), 0x04, 0x1000, 0x1000, 0x04, 0x2_0000));
+        }
+    }
+    {
+        if amd64 || c.cpu == "x86" {
+            // code at the first thread's instruction pointer: `mov rax, [rbx]` / `dec eax; mov eax, [ebx]`
+            // then nops (crash analysis disassembles it)
+            let code = Section::with_endian(LE).append_bytes(&[0x48, 0x8b, 0x03]).append_repeated(0x90, 29);
+            dump = dump.add_memory(synth::Memory::with_section(code, mod_base(c.thr[0][0]) + frame_off(0)));
+        }
+        // the process memory map
         let mut maps = String::new();
         for (i, (path, _)) in c.mods.iter().enumerate() {
             maps.push_str(&format!("{:x}-{:x} r-xp 00000000 08:01 {} {}\n", mod_base(i), mod_base(i) + MOD_SIZE as u64, 100 + i, path));
@@ -1047,8 +1111,9 @@ fn tokio_rt() -> &'static tokio::runtime::Runtime {
 
 #[derive(Default)]
 struct RunOut {
-    /// print_json(false), print_json(true), print, print_brief
-    bytes: [Vec<u8>; 4],
+    /// print_json(false), print_json(true), print, print_brief, summary of the pending-stats
+    /// reporter (empty when the run had none), raw `--dump` style output of the streams
+    bytes: [Vec<u8>; 6],
     done: Vec<usize>,
     started: Vec<usize>,
     err: Option<String>,
@@ -1056,6 +1121,13 @@ struct RunOut {
 }
 
 fn run_once(bytes: &[u8], c: &RunCase, text: &Arc<Vec<String>>, evil: Option<&std::path::Path>, delays: &[u32], exec: char, seed: u64, keep_state: bool) -> RunOut {
+    run_once_r(bytes, c, text, evil, delays, exec, seed, keep_state, true)
+}
+
+/// `reporter`: process with a `PendingProcessorStats` subscribed to everything (as the interactive
+/// minidump-stackwalk does)
+#[allow(clippy::too_many_arguments)]
+fn run_once_r(bytes: &[u8], c: &RunCase, text: &Arc<Vec<String>>, evil: Option<&std::path::Path>, delays: &[u32], exec: char, seed: u64, keep_state: bool, reporter: bool) -> RunOut {
     let mut out = RunOut::default();
     let dump = match Minidump::read(bytes) {
         Ok(d) => d,
@@ -1087,6 +1159,15 @@ fn run_once(bytes: &[u8], c: &RunCase, text: &Arc<Vec<String>>, evil: Option<&st
         _ => ProcessorOptions::unstable_all(),
     };
     options.evil_json = evil;
+    let mut subs = minidump_processor::PendingProcessorStatSubscriptions::default();
+    subs.thread_count = true;
+    subs.frame_count = true;
+    subs.unwalked_result = true;
+    subs.live_frames = true;
+    let stats = minidump_processor::PendingProcessorStats::new(subs);
+    if reporter {
+        options.stat_reporter = Some(&stats);
+    }
     let fut = minidump_processor::process_minidump_with_options(&dump, &provider, options);
     let state = match exec {
         'R' => {
@@ -1098,6 +1179,10 @@ fn run_once(bytes: &[u8], c: &RunCase, text: &Arc<Vec<String>>, evil: Option<&st
             .map_err(|_| "no completion within 20 s (executor T)".to_string()),
         _ => block_on_simple(fut),
     };
+    if reporter {
+        out.bytes[4] = pending_summary(&stats);
+    }
+    out.bytes[5] = raw_dump_text(&dump);
     out.started = started.lock().unwrap().clone();
     out.done = done.lock().unwrap().clone();
     let state = match state {
@@ -1260,7 +1345,64 @@ fn exec_file(c: &FileCase) -> ImplResult {
 
 // ----------------------------------------------------------------------------------- the oracle
 
-const WHICH: [&str; 4] = ["print_json(false)", "print_json(true)", "print", "print_brief"];
+const WHICH: [&str; 6] = ["print_json(false)", "print_json(true)", "print", "print_brief", "pending-stats summary", "raw stream dump"];
+
+/// what `minidump-stackwalk --dump` prints, through the same public `print` methods
+fn raw_dump_text(dump: &Minidump<'_, &[u8]>) -> Vec<u8> {
+    use minidump::*;
+    let mut out: Vec<u8> = vec![];
+    let _ = dump.print(&mut out);
+    let system_info = dump.get_stream::<MinidumpSystemInfo>().ok();
+    let memory_list = dump.get_stream::<MinidumpMemoryList<'_>>().ok();
+    let misc_info = dump.get_stream::<MinidumpMiscInfo>().ok();
+    let unified = dump.get_stream::<MinidumpMemoryList<'_>>().ok().map(UnifiedMemoryList::Memory);
+    if let Ok(l) = dump.get_stream::<MinidumpThreadList<'_>>() {
+        let _ = l.print(&mut out, unified.as_ref(), system_info.as_ref(), misc_info.as_ref(), false);
+    }
+    if let Ok(l) = dump.get_stream::<MinidumpModuleList>() {
+        let _ = l.print(&mut out);
+    }
+    if let Ok(l) = dump.get_stream::<MinidumpUnloadedModuleList>() {
+        let _ = l.print(&mut out);
+    }
+    if let Some(l) = memory_list {
+        let _ = l.print(&mut out, true);
+    }
+    if let Ok(l) = dump.get_stream::<MinidumpMemoryInfoList<'_>>() {
+        let _ = l.print(&mut out);
+    }
+    if let Ok(e) = dump.get_stream::<MinidumpException>() {
+        let _ = e.print(&mut out, system_info.as_ref(), misc_info.as_ref());
+    }
+    if let Some(si) = system_info {
+        let _ = si.print(&mut out);
+    }
+    if let Ok(n) = dump.get_stream::<MinidumpThreadNames>() {
+        let _ = n.print(&mut out);
+    }
+    if let Ok(c) = dump.get_stream::<MinidumpCrashpadInfo>() {
+        let _ = c.print(&mut out);
+    }
+    out
+}
+
+/// what the pending-stats reporter saw, in a canonical form: counters, the live frames SORTED by
+/// (thread, frame) — they arrive in completion order —, and the JSON of the unwalked state
+fn pending_summary(stats: &minidump_processor::PendingProcessorStats) -> Vec<u8> {
+    let (done, total) = stats.get_thread_count();
+    let frames = stats.get_frame_count();
+    let mut live: Vec<(usize, usize, u64)> = vec![];
+    stats.drain_new_frames(|f| live.push((f.thread_idx, f.frame_idx, f.frame.instruction)));
+    live.sort();
+    let mut out = format!("threads {done}/{total} frames {frames} live {live:?}\nunwalked: ").into_bytes();
+    match stats.take_unwalked_result() {
+        Some(state) => {
+            let _ = state.print_json(&mut out, false);
+        }
+        None => out.extend_from_slice(b"none"),
+    }
+    out
+}
 
 fn first_diff(a: &[u8], b: &[u8]) -> String {
     let n = a.iter().zip(b.iter()).take_while(|(x, y)| x == y).count();
@@ -1401,6 +1543,13 @@ fn compare(c: &RunCase, base: &RunOut, other: &RunOut, kind: &str, what: &str, o
         } else {
             oracle.push((format!("json-differs-across-{kind}"), detail));
         }
+    }
+    // the pending-stats reporter (both runs had one) and the raw stream dump
+    if !base.bytes[4].is_empty() && !other.bytes[4].is_empty() && base.bytes[4] != other.bytes[4] {
+        oracle.push((format!("pending-stats-differ-across-{kind}"), format!("{what}: {}", first_diff(&base.bytes[4], &other.bytes[4]))));
+    }
+    if base.bytes[5] != other.bytes[5] {
+        oracle.push((format!("raw-dump-differs-across-{kind}"), format!("{what}: {}", first_diff(&base.bytes[5], &other.bytes[5]))));
     }
     if let Some(i) = text_diff {
         let detail = format!("{what}: {} differs; {}", WHICH[i], first_diff(&base.bytes[i], &other.bytes[i]));
@@ -1941,6 +2090,158 @@ fn exec_cfi(c: &CfiCase) -> ImplResult {
     res
 }
 
+// ----------------------------------------------------------------------------------- exec (mix)
+
+fn mix_run_case(cpu: &str, seed: u64) -> RunCase {
+    RunCase {
+        feat: (seed % 3) as u32,
+        exc: true,
+        lim_n: 3,
+        lim_seed: seed,
+        alias: 1,
+        cpu: cpu.to_string(),
+        mods: vec![("/app/bin/main".to_string(), Res::Ok), ("/usr/lib/libc.so.6".to_string(), Res::Nf)],
+        cv: vec![None, None],
+        thr: vec![vec![0, 1], vec![1, 0, 0]],
+        sched: vec![vec![0, 1]],
+        runs: 1,
+        execs: "B".into(),
+        rs: seed,
+        evil: 0,
+    }
+}
+
+fn print_one(state: &ProcessState, printer: u8) -> Vec<u8> {
+    let mut out = vec![];
+    let _ = match printer {
+        0 => state.print_json(&mut out, false).map_err(|e| e.to_string()),
+        1 => state.print_json(&mut out, true).map_err(|e| e.to_string()),
+        2 => state.print(&mut out).map_err(|e| e.to_string()),
+        _ => state.print_brief(&mut out).map_err(|e| e.to_string()),
+    };
+    out
+}
+
+/// number of characters of the crash address a report shows (10 = 32-bit, 18 = 64-bit formatting)
+fn crash_addr_chars(report: &[u8], printer: u8) -> Option<usize> {
+    let s = String::from_utf8_lossy(report);
+    let key = if printer < 2 { "\"address\":" } else { "Crash address: " };
+    let p = s.find(key)? + key.len();
+    let rest = s[p..].trim_start().trim_start_matches('"');
+    Some(rest.chars().take_while(|c| c.is_ascii_hexdigit() || *c == 'x').count())
+}
+
+fn exec_mix(c: &MixCase) -> ImplResult {
+    let mut res = ImplResult::default();
+    let mut states: Vec<Arc<ProcessState>> = vec![];
+    for (k, cpu) in [&c.a, &c.b].iter().enumerate() {
+        let rc = mix_run_case(cpu, c.rs.wrapping_add(k as u64));
+        let bytes = build_dump(&rc);
+        let text: Arc<Vec<String>> = Arc::new((0..rc.mods.len()).map(|i| symbol_text(&rc, i)).collect());
+        // processed on a fresh thread, so that this worker's own print context stays out of it
+        let o = std::thread::scope(|s| s.spawn(|| run_once(&bytes, &rc, &text, None, &rc.sched[0], 'B', rc.rs, true)).join())
+            .unwrap_or_else(|_| RunOut { err: Some("panic".into()), ..Default::default() });
+        match o.state {
+            Some(st) => states.push(Arc::new(st)),
+            None => {
+                res.out = format!("ERR {:?}", o.err);
+                res.oracle.push(("processing-failed".into(), format!("{cpu}: {:?}", o.err)));
+                return res;
+            }
+        }
+    }
+    // base: every (state, printer) on its own fresh OS thread (empty thread-local context)
+    let mut base: Vec<Vec<u8>> = vec![];
+    for d in 0..8u8 {
+        let st = states[(d / 4) as usize].clone();
+        base.push(std::thread::spawn(move || print_one(&st, d % 4)).join().unwrap_or_default());
+    }
+    // S: the whole sequence on ONE fresh thread
+    let seq = c.seq.clone();
+    let sts = states.clone();
+    let same: Vec<Vec<u8>> = std::thread::spawn(move || seq.iter().map(|d| print_one(&sts[(*d / 4) as usize], *d % 4)).collect())
+        .join()
+        .unwrap_or_default();
+    let cpu_of = |d: u8| if d / 4 == 0 { &c.a } else { &c.b };
+    for (i, d) in c.seq.iter().enumerate() {
+        if same.get(i) != Some(&base[*d as usize]) {
+            let prev: Vec<String> = c.seq[..i].iter().map(|p| format!("{}:{}", cpu_of(*p), WHICH[(*p % 4) as usize])).collect();
+            res.oracle.push((
+                "print-depends-on-thread-history".into(),
+                format!(
+                    "print #{i} ({} of the {} dump) on a thread that printed {:?} before differs from the same print on a fresh thread; {}",
+                    WHICH[(*d % 4) as usize],
+                    cpu_of(*d),
+                    prev,
+                    first_diff(&base[*d as usize], same.get(i).map(|v| v.as_slice()).unwrap_or(&[]))
+                ),
+            ));
+            break;
+        }
+    }
+    // T: one task per print on the multi-thread runtime (4 workers), three rounds; which worker a
+    // task lands on — and what that worker printed before — is up to the scheduler
+    let rt = tokio_rt();
+    'rounds: for round in 0..3u64 {
+        let outs: Vec<(u8, Vec<u8>)> = rt.block_on(async {
+            let mut hs = vec![];
+            for (i, d) in c.seq.iter().enumerate() {
+                let st = states[(*d / 4) as usize].clone();
+                let d = *d;
+                let yields = (c.rs.wrapping_add(round * 7 + i as u64 * 3) % 4) as usize;
+                hs.push(tokio::spawn(async move {
+                    for _ in 0..yields {
+                        tokio::task::yield_now().await;
+                    }
+                    (d, print_one(&st, d % 4))
+                }));
+            }
+            let mut outs = vec![];
+            for h in hs {
+                outs.push(h.await.unwrap_or((0, vec![])));
+            }
+            outs
+        });
+        for (i, (d, o)) in outs.iter().enumerate() {
+            if *o != base[*d as usize] {
+                res.oracle.push((
+                    "print-depends-on-runtime-worker".into(),
+                    format!(
+                        "round {round}, task #{i} ({} of the {} dump) on the multi-thread runtime differs from the same print on a fresh thread; {}",
+                        WHICH[(*d % 4) as usize],
+                        cpu_of(*d),
+                        first_diff(&base[*d as usize], o)
+                    ),
+                ));
+                break 'rounds;
+            }
+        }
+    }
+    // for the model: pointer width of every print of the same-thread sequence, and the number of
+    // characters of the crash address it showed
+    let width = |d: u8| match states[(d / 4) as usize].system_info.cpu.pointer_width() {
+        minidump::system_info::PointerWidth::Bits32 => 32,
+        minidump::system_info::PointerWidth::Bits64 => 64,
+        _ => 0,
+    };
+    let widths: Vec<String> = c.seq.iter().map(|d| width(*d).to_string()).collect();
+    let chars: Vec<String> = c
+        .seq
+        .iter()
+        .enumerate()
+        .map(|(i, d)| same.get(i).and_then(|o| crash_addr_chars(o, *d % 4)).map(|n| n.to_string()).unwrap_or("?".into()))
+        .collect();
+    res.out = format!("chars:{}", chars.join(","));
+    LAST.with(|l| *l.borrow_mut() = Some((render_mix(c), format!("det ctx widths:{}", widths.join(",")))));
+    let distinct_widths = width(0) != width(4);
+    let alternations = c.seq.windows(2).filter(|w| w[0] / 4 != w[1] / 4).count();
+    res.nontrivial = alternations >= 1;
+    res.tags.push("kind:mix".into());
+    res.tags.push(format!("mix-widths:{}", if distinct_widths { "32+64" } else { "same" }));
+    res.tags.push(format!("mix-alternations:{}", alternations.min(8)));
+    res
+}
+
 // ----------------------------------------------------------------------------------- exec (run)
 
 fn exec_run(c: &RunCase) -> ImplResult {
@@ -1976,11 +2277,13 @@ fn exec_run(c: &RunCase) -> ImplResult {
     // repeated runs, same schedule, same executor: fresh hash seeds (odd runs on a fresh OS thread,
     // whose `RandomState` keys are drawn afresh)
     for r in 1..c.runs {
+        // (every third repetition WITHOUT the pending-stats reporter: it must not change the reports)
+        let rep = r % 3 != 2;
         let o = if r % 2 == 1 {
-            std::thread::scope(|s| s.spawn(|| run_once(&bytes, c, &text, evil, &c.sched[0], 'B', c.rs, false)).join())
+            std::thread::scope(|s| s.spawn(|| run_once_r(&bytes, c, &text, evil, &c.sched[0], 'B', c.rs, false, rep)).join())
                 .unwrap_or_else(|_| RunOut { err: Some("panic".into()), ..Default::default() })
         } else {
-            run_once(&bytes, c, &text, evil, &c.sched[0], 'B', c.rs, false)
+            run_once_r(&bytes, c, &text, evil, &c.sched[0], 'B', c.rs, false, rep)
         };
         n_runs += 1;
         compare(c, &base, &o, "runs", &format!("run #{r} (executor B, base schedule)"), &mut res.oracle);
@@ -2342,6 +2645,24 @@ impl Engine for Det {
         for _ in 0..n_cfi {
             emit(render_cfi(&gen_cfi(rng)));
         }
+        // different dumps printed alternately on one thread and on the multi-thread runtime
+        let n_mix = if quick { 150 } else { 3000 };
+        for i in 0..n_mix {
+            let (a, b) = match i % 5 {
+                // different pointer widths in 4/5
+                0 => ("amd64", "x86"),
+                1 => ("arm", "arm64"),
+                2 => (*rng.pick(&["x86", "arm", "mips", "ppc", "sparc"]), *rng.pick(&["amd64", "arm64", "arm64old", "ppc64"])),
+                3 => (*rng.pick(&["amd64", "arm64", "ppc64", "mips64"]), *rng.pick(&["x86", "arm", "mips", "sparc"])),
+                _ => (*rng.pick(RUN_CPUS), *rng.pick(RUN_CPUS)),
+            };
+            let n = rng.range(2, 12) as usize;
+            let mut seq: Vec<u8> = (0..n).map(|_| rng.below(8) as u8).collect();
+            // make sure both states occur
+            seq[0] = rng.below(4) as u8;
+            seq[1] = 4 + rng.below(4) as u8;
+            emit(render_mix(&MixCase { a: a.to_string(), b: b.to_string(), seq, rs: rng.below(1 << 32) }));
+        }
         // the repository's own dumps and symbols (x86 Windows with STACK WIN, Linux, macOS with inlines)
         let n_file = if quick { 60 } else { 1500 };
         for i in 0..n_file {
@@ -2367,6 +2688,14 @@ impl Engine for Det {
         match parse_case(case) {
             None => ImplResult { out: "bad-op".into(), ..Default::default() },
             Some(Case::Cfi(c)) => exec_cfi(&c),
+            Some(Case::Mix(c)) => match catch(|| exec_mix(&c)) {
+                Ok(r) => r,
+                Err(msg) => ImplResult {
+                    out: "PANIC".into(),
+                    oracle: vec![("panic".into(), msg)],
+                    ..Default::default()
+                },
+            },
             Some(Case::File(c)) => match catch(|| exec_file(&c)) {
                 Ok(r) => r,
                 Err(msg) => ImplResult {
@@ -2397,6 +2726,13 @@ impl Engine for Det {
                 let r = render_cfi(&c);
                 Some(r.rsplit_once(" sh:").map(|(a, _)| a.to_string()).unwrap_or(r))
             }
+            Some(Case::Mix(c)) => {
+                let key = render_mix(&c);
+                LAST.with(|l| match &*l.borrow() {
+                    Some((k, req)) if *k == key => Some(req.clone()),
+                    _ => None,
+                })
+            }
             Some(Case::Run(c)) => {
                 let key = render_run(&c);
                 LAST.with(|l| match &*l.borrow() {
@@ -2411,6 +2747,21 @@ impl Engine for Det {
         match parse_case(case) {
             Some(Case::Run(c)) => shrink_run(c, still_fails),
             Some(Case::Cfi(c)) => shrink_cfi(c, still_fails),
+            Some(Case::Mix(mut c)) => {
+                // shorter sequences (a flaky, scheduler-dependent failure gets several chances)
+                let mut i = 0;
+                while c.seq.len() > 1 && i < c.seq.len() {
+                    let mut d = c.clone();
+                    d.seq.remove(i);
+                    let s = render_mix(&d);
+                    if (0..3).any(|_| still_fails(&s)) {
+                        c = d;
+                    } else {
+                        i += 1;
+                    }
+                }
+                render_mix(&c)
+            }
             Some(Case::File(mut c)) => {
                 for x in ['T', 'R'] {
                     if c.execs.contains(x) {
